@@ -33,8 +33,11 @@ NeedsUbuntuCopy(c) == c.dist \in {"debian", "whonix"} /\ c.ver # "4.1"
 Survivors(in) == {i \in DOMAIN in.src : ~Ignored(in.src[i], in.ignore)}
 FlatPaths(in) == {FlatE(in.src[i]) : i \in Survivors(in)}
 \* two surviving source entries that collapse onto one output name (computed only when the counts differ)
-Clashes(in) == IF Cardinality(FlatPaths(in)) = Cardinality(Survivors(in)) THEN {}
-               ELSE {p \in FlatPaths(in) : Cardinality({i \in Survivors(in) : FlatE(in.src[i]) = p}) > 1}
+\* ... or, in a full-system-policy build, a file of the _full group that has the output name of a surviving profile
+FullClashes(in) == IF in.cfg.full THEN {p \in FlatPaths(in) : \E i \in DOMAIN in.fullfiles : in.fullfiles[i].segs = p} ELSE {}
+Clashes(in) == (IF Cardinality(FlatPaths(in)) = Cardinality(Survivors(in)) THEN {}
+                ELSE {p \in FlatPaths(in) : Cardinality({i \in Survivors(in) : FlatE(in.src[i]) = p}) > 1})
+               \cup FullClashes(in)
 
 ExpFiles(in) ==
     LET c == in.cfg
